@@ -250,6 +250,8 @@ def chem_instances(tier):
     # not the root of the token
     add(M("C[>]", S("[>]", ["[<]CC(C(=O)OCC([>2])C)[>]", "[<2]CO[>2]"], ["[<2]F", "[<][H]"], "[<]", g(150)), "[<]O", name="chem-descriptor-at-depth-2"))
     add(M("CC(C(=O)OCC([>])C)C", S("[>]", ["[<]CC(C(=O)OC(C(C)([>]))C)[>]", "[<]CC[>]"], ["[<][H]"], "[<]", g(160)), "[<]N", name="chem-descriptor-at-depth-3"))
+    # descriptors on sulfur / phosphorus in a higher valence state (sulfonyl, sulfinyl, phosphoryl): their hydrogen count is the written one
+    add(M("C[$]", S("[$]", ["[$]CC([$])[$]"], ["[$]S(=O)(=O)C", "[$]S(=O)C", "[$]P(=O)(C)C"], "[$]", g(40)), "[$]S(=O)(=O)c1ccc(C)cc1", name="chem-hypervalent-S-P"))
     # tokens of a hundred atoms and more (a written-out macro-initiator, a large end group): residues are whole copies whatever their size
     big = "CC(c1ccccc1)" * 13
     add(M(big + "[>]", S("[>]", ["[<]CC[>]"], ["[<]" + "C(C)C" * 34], "[<]", g(40)), "[<]O", name="chem-hundred-atom-tokens"))
